@@ -55,7 +55,7 @@ func coreCfg(c *sim.Case, script []int16, strict, keepLog bool) core.Config {
 	cfg := core.Config{Seed: s.Seed, Policy: polNames[s.Policy], StickyPct: s.StickyPct, PCTDepth: s.PCTDepth,
 		PCTLen: s.PCTLen, FreezeAt: s.FreezeAt, Probe: s.Probe, TickPct: s.TickPct, SpinBurn: s.SpinBurn, MaxSteps: s.MaxSteps, KeepLog: keepLog}
 	for _, st := range s.Stalls {
-		cfg.Stalls = append(cfg.Stalls, core.Stall{T: st.T, At: st.At, For: st.For})
+		cfg.Stalls = append(cfg.Stalls, core.Stall{T: st.T, At: st.At, For: st.For, AfterW: st.AfterW})
 	}
 	if script != nil {
 		cfg.Policy = core.PolScript
@@ -500,17 +500,36 @@ func GenSched(r *sim.Rng, nThreads, totalOps int, probe int, allowFreeze bool) *
 	if nThreads > 1 && r.Pct(30) {
 		k := r.Range(1, 2)
 		for i := 0; i < k; i++ {
-			s.Stalls = append(s.Stalls, sim.Stall{T: r.N(nThreads), At: r.N(est), For: r.Range(5, est)})
+			st := sim.Stall{T: r.N(nThreads), At: r.N(est), For: r.Range(5, est)}
+			if r.Pct(30) {
+				st.AfterW = r.Range(1, 8) // preempted right after one of its writes
+			}
+			s.Stalls = append(s.Stalls, st)
 		}
 	}
 	if probe >= 0 && allowFreeze && r.Pct(50) {
 		s.FreezeAt = r.N(est)
 	}
-	if r.Pct(3) {
-		// long spinning: a waiter burns more than a thousand attempts while nobody makes
-		// progress (a stalled peer), so that bounded-spin fallbacks are reached
-		s.SpinBurn = r.Range(1030, 1300)
+	if r.Pct(6) {
+		// long spinning: a waiter burns hundreds to more than a thousand attempts while nobody
+		// makes progress (a stalled peer), so that bounded-spin fallbacks are reached; the
+		// peer's stall and the freeze point are stretched to the same time scale
+		s.SpinBurn = []int{150, 300, 600, 1100, 1300}[r.N(5)]
 		s.MaxSteps = 40000
+		if nThreads > 1 {
+			s.Stalls = []sim.Stall{{T: r.N(nThreads), At: r.N(est), For: r.Range(s.SpinBurn, s.SpinBurn*8)}}
+			if r.Pct(50) {
+				// the peer stays descheduled until the waiters have used up the whole budget
+				s.Stalls[0].At = r.N(est/2 + 1)
+				s.Stalls[0].For = -1
+				if r.Pct(60) {
+					s.Stalls[0].AfterW = r.Range(1, 5)
+				}
+			}
+		}
+		if probe >= 0 && allowFreeze && r.Pct(60) {
+			s.FreezeAt = r.Range(s.SpinBurn, s.SpinBurn*6)
+		}
 	}
 	return s
 }
